@@ -86,6 +86,16 @@ def domain(tier):
             longs.append(b"\n" * nl + b"y" * max(0, n - nl))
             longs.append(b"y" * max(0, n - nl) + b"\n" * nl)
             longs.append(b"\n" * nl + b"y" * max(0, n - nl - 1) + b"]")
+    # closers that overlap or touch (`]=]]`, `]]=]`, `]=]==]`, `]]]`): every string of `]` and `=` up to length 6 (quick: up to 5),
+    # inside, at the start and at the end of a 60-byte text
+    for k in range(2, 7 if tier == "thorough" else 6):
+        for bits in itertools.product(b"]=", repeat=k):
+            pat = bytes(bits)
+            if b"]" not in pat:
+                continue
+            longs.append(b"x" * 30 + pat + b"x" * 30)
+            longs.append(pat + b"x" * 60)
+            longs.append(b"x" * 60 + pat)
     longs += [b"\x1b1", b"\x001", b"\xc3\xa91", b"ab\"c'd", b"\\n", b"\\\\", b"a\\", b"\xe2\x97\x81", b"\xf0\x9f\x98\x80", b"\xed\xa0\x80", b"\xc0\x80"]
     return one + pairs + longs
 
